@@ -170,7 +170,7 @@ OWN = {
     "C16": {"bound_op": "*", "eval_bound": "*", "content_factor": "*"},
     "C17": {"mps_load": "*"},
     "C18": {"mps_roundtrip": "*"},
-    "C19": {"qplib_load": "*"},
+    "C19": {"qplib_load": {"except": ["constraint_ids"]}},
     # store_op: C20 owns what its statement covers (what is stored is read back equal, nothing else is disturbed); the
     # store's overwrite policy (`result`, `step`) is an extension of the specification
     "C20": {"artifact": "*", "store_op": ["no_panic", "fresh_store", "readable", "stored_content", "others_untouched"]},
